@@ -228,16 +228,29 @@ func h_apply(db *DB, o h_op, reopen func() *DB) *DB {
 // with the store syncing on every change or only on demand; after every operation Get agrees with the map; then
 // either a clean Close or a crash before the k-th mutating file operation (k arbitrary), and a reopen: the store
 // opens, and every key holds its last synced value or one written later - after a clean Close exactly the last one.
-// Natively the same workload runs in a child process that strace kills at the k-th openat / write / unlinkat system
+// Natively the same workload runs in a child process that gdb kills at the k-th openat / write / unlinkat system
 // call, for every k, and a second child reopens the directory.
-func H_C19_OpsAndCrash() {
+func H_C19_OpsAndCrash() { h_c19_run(false, 300) }
+
+// C19: the same from a store that already holds key 1 (an arbitrary value written and closed in an earlier session:
+// its record is in the data file and in the index log when the workload starts), with the forced defragmentation
+// inside sync() at its default threshold (300 %) or at 10 % - so that a sync of an overwrite or a delete defragments.
+func H_C19_FromStoredState() {
+	h_c19_run(true, []uint32{300, 10}[zzverif.Enum("forced-defrag-percent", 2)])
+}
+
+func h_c19_run(stored bool, forcedDefrag uint32) {
 	crashAt := zzverif.Enum("crash-before-file-op", 26+10*zzverif.Tier()) // 0: no crash
 	syncEach := zzverif.Enum("sync-on-demand-only", 2) == 0
-	opts := &ExtraOpts{DefragPercentVal: 50, ForcedDefragPerc: 300, MaxPendingNoSync: 10000}
+	opts := &ExtraOpts{DefragPercentVal: 50, ForcedDefragPerc: forcedDefrag, MaxPendingNoSync: 10000}
 	if !syncEach {
 		opts.MaxPending = 2500
 	}
-	zzverif.Bound("workload", "3 (thorough 4) operations from {Put, Del, Sync, Defrag(force), Close+reopen} on 2 keys, values of 2 arbitrary bytes; crash before the k-th create/write/remove for k in 1..25 (35) or none; MaxPending 0 or 2500")
+	zzverif.Bound("workload", "3 (thorough 4) operations from {Put, Del, Sync, Defrag(force), Close+reopen} on 2 keys, values of 2 arbitrary bytes; the store empty at the start (OpsAndCrash) or holding key 1 from an earlier session (FromStoredState); crash before the k-th create/write/remove for k in 1..25 (35) or none; MaxPending 0 or 2500; ForcedDefragPerc 300 or 10")
+	var pre []h_op
+	if stored {
+		pre = []h_op{{kind: 0, key: 1, val: zzverif.Bytes("stored-value", 2)}}
+	}
 	var ops []h_op
 	for step := 0; step < 3+zzverif.Tier(); step++ {
 		o := h_op{kind: zzverif.Enum("op", 5)}
@@ -250,18 +263,31 @@ func H_C19_OpsAndCrash() {
 		ops = append(ops, o)
 	}
 	if !zzverif.Symbolic() {
-		h_c19_native(ops, opts, syncEach)
+		h_c19_native(pre, ops, opts, syncEach)
 		return
 	}
 	fs := &h_fs{files: map[string][]byte{}, handles: map[*os.File]*h_handle{}}
 	fs.install()
-	fs.crashAt = crashAt
 	open := func() *DB {
 		var db *DB
 		NewDBExt(&db, &NewDBOpts{Dir: "/db/", LoadData: true, ExtraOpts: opts})
 		return db
 	}
 	m := h_new_model(syncEach)
+	if len(pre) > 0 {
+		// the earlier session: no crash in it
+		db := open()
+		for _, o := range pre {
+			m.started(o)
+			db = h_apply(db, o, open)
+			m.done(o)
+		}
+		db.Close()
+		m.synced()
+		fs.handles = map[*os.File]*h_handle{}
+		fs.ops = 0
+	}
+	fs.crashAt = crashAt
 	crashed := zzverif.Panics(func() {
 		db := open()
 		for _, o := range ops {
